@@ -798,11 +798,48 @@ func c16Api(f []string) vResult {
 			others = append(others, p.Session())
 		}
 		dbgRef("before loss")
+		// while the replacement is being established (a server that is slow to answer: here 400 ms per attempt) callers keep
+		// calling GetStream: each call returns at once - a stream of a healthy pool or an error - it never waits for the rebuild
+		var slowest int64
+		var probing int32 = 1
+		prev := vNewClientSessionHook
+		vNewClientSessionHook = func(sessionID int, epochID, randID uint64, config *SessionManagerConfig) (*Session, error) {
+			time.Sleep(400 * time.Millisecond)
+			if prev != nil {
+				return prev(sessionID, epochID, randID, config)
+			}
+			return newClientSession(sessionID, epochID, randID, config)
+		}
+		probeDone := make(chan struct{})
+		go func() {
+			defer close(probeDone)
+			for atomic.LoadInt32(&probing) == 1 {
+				t0 := time.Now()
+				st, err := sm.GetStream()
+				if d := int64(time.Since(t0)); d > atomic.LoadInt64(&slowest) {
+					atomic.StoreInt64(&slowest, d)
+				}
+				if err == nil && st != nil {
+					sm.PutBack(st)
+				}
+				time.Sleep(5 * time.Millisecond)
+			}
+		}()
 		lost.Close()
 		healed := c19WaitFor(10*time.Second, func() bool {
 			s := sm.pools[0].Session()
 			return s != lost && s != nil && !s.IsClosed() && s.IsHealthy()
 		})
+		atomic.StoreInt32(&probing, 0)
+		select {
+		case <-probeDone:
+		case <-time.After(5 * time.Second):
+			setFail("getstream-blocks-during-rebuild", "a GetStream call made while a lost session was being replaced has not returned 5 s after the replacement was there")
+		}
+		vNewClientSessionHook = prev
+		if d := time.Duration(atomic.LoadInt64(&slowest)); d > 250*time.Millisecond {
+			setFail("getstream-blocks-during-rebuild", fmt.Sprintf("while pool 0 was being rebuilt (each attempt takes 400 ms at the server) a GetStream call took %v: calls made in between must fail with an error (or use a healthy pool), not wait for the rebuild", d.Round(time.Millisecond)))
+		}
 		dbgRef("after heal")
 		if os.Getenv("VERIF_DEBUG") != "" {
 			time.Sleep(1500 * time.Millisecond)
